@@ -237,10 +237,10 @@ PLANS.update({
                     exhaustive=True,
                     exhaustive_note="ports x widths x access kinds enumerated completely; values: all 256 for u8, lattice for u16/u32"),
     "C17": cpu_plan("intr", 30000, 400000,
-                    "programs = ALL statement trees with <= 4 (thorough: 5) nodes over {enable, disable, are_enabled, enable_and_hlt, without_interrupts(body), enable;...;disable} x both initial flag states, plus seeded random programs to nesting depth 6, interpreted as nested closures around the real without_interrupts with distinct return values; cli/sti/hlt trap and drive the emulated IF, which rflags::read_raw overlays (hook H2); events at every program point carry the trapped instructions and the flag; distinct = distinct (event, instructions, flag)",
+                    "programs = ALL statement trees with <= 4 (thorough: 5) nodes over {enable, disable, are_enabled, enable_and_hlt, without_interrupts(body), enable;...;disable} x both initial flag states, plus seeded random programs to nesting depth 6, interpreted as nested closures around the real without_interrupts with distinct return values; cli/sti/hlt trap and drive the emulated IF, which rflags::read_raw overlays (hook H2); events at every program point carry the trapped instructions and the flag; a third of the programs run with the ID flag set; plus window probes (a static cell stored/loaded around and inside the critical section while the emulated interrupt handler samples and overwrites it at every cli/sti: loads and stores must stay inside the window) and red-zone probes (leaf functions with 16 locals around are_enabled / without_interrupts: the closure's result and the caller's locals survive); distinct = distinct (event, instructions, flag)",
                     design=({"module": "MC_Intr", "cfg": "MC_Intr.cfg", "workers": 4},)),
     "C11": cpu_plan("flush", 4000, 60000,
-                    "tlb::flush on the canonical lattice + random; flush_all / MapperFlushAll::flush_all with CR3 contents incl. PCID bits; MapperFlush::flush for the 3 sizes; Pcid::new for all 65536 u16; flush_pcid for 4 kinds x boundary PCIDs (thorough: all 4096) x lattice addresses; InvlpgbFlushBuilder over 4KiB/2MiB ranges (empty, 1 page, multiples of count_max +-1, abutting the gap, spanning the gap, upper half, near the top) x count_max in {0,1,2,3,7,8,255,4096,65535,random} x pcid/asid/global/final/nested combinations: every trapped invlpg/invpcid/invlpgb/tlbsync/mov-cr3 operand is decoded by the specification; plus a page-table run whose every successful call must return a token naming the argument page; distinct = distinct (operation, arguments)",
+                    "tlb::flush on the canonical lattice + random; flush_all / MapperFlushAll::flush_all with CR3 contents incl. PCID bits; MapperFlush::flush for the 3 sizes; Pcid::new for all 65536 u16; flush_pcid for 4 kinds x boundary PCIDs (thorough: all 4096) x lattice addresses; InvlpgbFlushBuilder over 4KiB/2MiB ranges (empty, 1 page, multiples of count_max +-1, abutting the gap, spanning the gap, upper half, near the top) x count_max in {0,1,2,3,7,8,255,4096,65535,random} x pcid/asid/global/final/nested combinations: every trapped invlpg/invpcid/invlpgb/tlbsync/mov-cr3 operand is decoded by the specification; the builder without a page range (one request without address), ASIDs at and beyond the processor's number of ASIDs, options set before or after pages(), ranges of up to 3*65536+5 pages under a watchdog; plus a page-table run whose every successful call must return a token naming the argument page; distinct = distinct (operation, arguments)",
                     design=({"module": "MC_PT_tlb", "cfg": "MC_PT_tlbq.cfg", "workers": 8, "timeout": 900},),
                     extra_runs=(c11_pt_run,)),
 })
